@@ -439,8 +439,12 @@ impl<'a> Peripheral<'a> {
                 Ok(self.send_diagnostics_request(fdl, tx))
             }
             PeripheralState::DataExchange | PeripheralState::PreDataExchange => {
-                self.diag_in_flight = self.diag_needed;
-                if self.diag_needed {
+                // Decide which service to use only for a new request: a retransmission must repeat
+                // the request that went unanswered (same service, same frame count bit).
+                if self.retry_count == 0 {
+                    self.diag_in_flight = self.diag_needed;
+                }
+                if self.diag_in_flight {
                     Ok(self.send_diagnostics_request(fdl, tx))
                 } else {
                     #[cfg(feature = "debug-measure-roundtrip")]
